@@ -43,6 +43,24 @@ Proof.
   change (1 + 768 + 2048 / 2) with 1793. apply truelen_le_iff. lia.
 Qed.
 
+Lemma zk_bounded_iff z : zk_bounded z = true <-> Z.abs z < 2 ^ 4865.
+Proof.
+  unfold zk_bounded, zk_LEps, zk_BitsN. rewrite Z.leb_le. change (1 + 768 + 2 * 2048) with 4865. apply truelen_le_iff. lia.
+Qed.
+Lemma truelen_bounded z k : truelen z <= k -> k <= 4865 -> zk_bounded z = true.
+Proof. intros H1 H2. unfold zk_bounded, zk_LEps, zk_BitsN. apply Z.leb_le. change (1 + 768 + 2 * 2048) with 4865. lia. Qed.
+Lemma in_leps_bounded z : in_leps z = true -> zk_bounded z = true.
+Proof. unfold in_leps, zk_LEps. rewrite Z.leb_le. intro H. apply (truelen_bounded z 768); lia. Qed.
+Lemma in_lprimeeps_bounded z : in_lprimeeps z = true -> zk_bounded z = true.
+Proof. unfold in_lprimeeps, zk_LPrimeEps. rewrite Z.leb_le. intro H. apply (truelen_bounded z 1792); lia. Qed.
+Lemma in_leps1rootn_bounded z : in_leps1rootn z = true -> zk_bounded z = true.
+Proof.
+  unfold in_leps1rootn, zk_LEps, zk_BitsN. rewrite Z.leb_le. change (1 + 768 + 2048 / 2) with 1793.
+  intro H. apply (truelen_bounded z 1793); lia.
+Qed.
+Lemma in_plaintext_iff n m : in_plaintext n m = true <-> Z.abs m <= n / 2.
+Proof. unfold in_plaintext. apply Z.leb_le. Qed.
+
 (* the masked response e*x + alpha stays in range whenever the mask leaves room for |e|*|x| *)
 Lemma mask_slack B E X e x alpha :
   0 <= E -> 0 <= X -> Z.abs e <= E -> Z.abs x <= X -> Z.abs alpha < B - E * X -> Z.abs (e * x + alpha) < B.
@@ -270,9 +288,10 @@ Section Pedersen.
 
   (* s^(e x + a) t^(e y + b) = (s^a t^b) (s^x t^y)^e *)
   Lemma ped_complete a b x y e :
+    zk_bounded (e * x + a) = true -> zk_bounded (e * y + b) = true ->
     ped_verify n s t (e * x + a) (e * y + b) e (ped_commit n s t a b) (ped_commit n s t x y) = true.
   Proof.
-    unfold ped_verify. rewrite !valid_ped_commit. cbn [andb]. apply Z.eqb_eq.
+    intros Hb1 Hb2. unfold ped_verify. rewrite Hb1, Hb2, !valid_ped_commit. cbn [andb]. apply Z.eqb_eq.
     unfold ped_commit.
     rewrite expI_mulmod_base by (try apply unit_expI; assumption).
     rewrite !expI_expI by assumption.
@@ -283,6 +302,10 @@ Section Pedersen.
 
   (* anything that fails the validity of the commitments is refused *)
   Lemma ped_verify_valid a b e S T : ped_verify n s t a b e S T = true -> valid_mod n S = true /\ valid_mod n T = true.
+  Proof. unfold ped_verify. rewrite !andb_true_iff. tauto. Qed.
+
+  (* oversized exponents are refused *)
+  Lemma ped_verify_bounded a b e S T : ped_verify n s t a b e S T = true -> zk_bounded a = true /\ zk_bounded b = true.
   Proof. unfold ped_verify. rewrite !andb_true_iff. tauto. Qed.
 End Pedersen.
 
@@ -439,15 +462,16 @@ Theorem enc_complete nh s t n0 k rho alpha r mu gamma e K S A C z1 z2 z3 :
   enc n0 k rho = Some K ->
   enc_commit nh s t n0 k alpha r mu gamma = Some (S, A, C) ->
   enc_respond n0 k rho alpha r mu gamma e = (z1, z2, z3) ->
-  in_leps z1 = true ->
+  in_leps z1 = true -> zk_bounded z3 = true ->
   enc_verify nh s t n0 K S A C z1 z2 z3 e = Some true.
 Proof.
-  intros Hnh Hs Ht Hn0 Hbig Hrho Hr HK Hcom Hresp Hrange.
+  intros Hnh Hs Ht Hn0 Hbig Hrho Hr HK Hcom Hresp Hrange Hb3.
   apply enc_Some_inv in HK as [-> _].
   unfold enc_commit in Hcom. destruct (enc n0 alpha r) as [A'|] eqn:EA; [|discriminate].
   apply enc_Some_inv in EA as [-> _]. injection Hcom as <- <- <-.
   unfold enc_respond in Hresp. injection Hresp as <- <- <-.
-  unfold enc_verify. rewrite validate_encval, valid_resp_nonce, Hrange, ped_complete by assumption. cbn [guard].
+  unfold enc_verify. rewrite !valid_ped_commit, validate_encval, valid_resp_nonce, Hrange by assumption.
+  rewrite ped_complete by (try assumption; apply in_leps_bounded; assumption). cbn [andb guard].
   apply enc_eq_ok.
   - apply (half_bound 768); [lia | exact Hbig | apply in_leps_iff; exact Hrange].
   - apply enc_linear; assumption.
@@ -469,7 +493,7 @@ Theorem mul_complete n Y x rho rhox alpha r sn e X C A B z u v :
   C = randomize n (mul n x Y) rho ->
   mul_commit n Y alpha r sn = Some (A, B) ->
   mul_respond n x rho rhox alpha r sn e = (z, u, v) ->
-  Z.abs z <= n / 2 ->
+  in_plaintext n z = true ->
   mul_verify n X Y C A B z u v e = Some true.
 Proof.
   intros Hn HY Hrho Hrhox Hr Hsn HX -> Hcom Hresp Hz.
@@ -479,9 +503,9 @@ Proof.
   unfold mul_respond in Hresp. injection Hresp as <- <- <-.
   unfold mul_verify. rewrite !valid_resp_nonce by assumption.
   rewrite validate_randomize by (try apply unit_mul_ct; assumption).
-  rewrite validate_encval by assumption. cbn [andb guard].
+  rewrite validate_encval by assumption. rewrite Hz. cbn [andb guard].
   rewrite rand_linear by assumption. rewrite Z.eqb_refl. cbn [guard].
-  apply enc_eq_ok; [exact Hz | apply enc_linear; assumption].
+  apply enc_eq_ok; [apply in_plaintext_iff; exact Hz | apply enc_linear; assumption].
 Qed.
 
 (* ---------------------------------------------------------------- affp *)
@@ -493,10 +517,10 @@ Theorem affp_complete nh s t n1 n0 Kv x y sn rx r alpha beta rho rhox rhoy gamma
   enc n0 y sn = Some Dv -> enc n1 y r = Some Fp -> enc n1 x rx = Some Xp ->
   affp_commit nh s t n1 n0 Kv x y alpha beta rho rhox rhoy gamma m delta mu = Some (A, Bx, By, E, S, F, T) ->
   affp_respond n1 n0 x y sn rx r alpha beta rho rhox rhoy gamma m delta mu e = (z1, z2, z3, z4, w, wx, wy) ->
-  in_leps z1 = true -> in_lprimeeps z2 = true ->
+  in_leps z1 = true -> in_lprimeeps z2 = true -> zk_bounded z3 = true -> zk_bounded z4 = true ->
   affp_verify nh s t n1 n0 Kv (add n0 (mul n0 x Kv) Dv) Fp Xp A Bx By E S F T z1 z2 z3 z4 w wx wy e = Some true.
 Proof.
-  intros Hnh Hs Ht Hn0 Hb0 Hn1 Hb1 HK Hsn Hrho Hrx Hr Hrhox Hrhoy HD HF HX Hcom Hresp Hr1 Hr2.
+  intros Hnh Hs Ht Hn0 Hb0 Hn1 Hb1 HK Hsn Hrho Hrx Hr Hrhox Hrhoy HD HF HX Hcom Hresp Hr1 Hr2 Hbz3 Hbz4.
   apply enc_Some_inv in HD as [-> _]. apply enc_Some_inv in HF as [-> _]. apply enc_Some_inv in HX as [-> _].
   unfold affp_commit in Hcom.
   destruct (enc n0 beta rho) as [c|] eqn:E0; [|discriminate].
@@ -512,7 +536,7 @@ Proof.
   assert (Hz1 : Z.abs (e * x + alpha) <= n1 / 2).
   { apply (half_bound 1792); [lia | exact Hb1 |]. apply in_leps_iff in Hr1.
     assert (2 ^ 768 < 2 ^ 1792) by (apply Z.pow_lt_mono_r; lia). lia. }
-  unfold affp_verify.
+  unfold affp_verify. rewrite !valid_ped_commit by assumption.
   rewrite validate_add by (try apply unit_encval; try apply unit_mul_ct; assumption).
   rewrite !validate_encval by assumption.
   rewrite !valid_resp_nonce by assumption. rewrite Hr1, Hr2.
@@ -520,7 +544,8 @@ Proof.
   rewrite aff_linear by assumption. rewrite Z.eqb_refl. cbn [guard].
   rewrite enc_eq_ok; [| exact Hz1 | apply enc_linear; assumption].
   rewrite enc_eq_ok; [| exact Hz2' | apply enc_linear; assumption].
-  rewrite !ped_complete by assumption. reflexivity.
+  rewrite !ped_complete by (try assumption; try (apply in_leps_bounded; assumption); apply in_lprimeeps_bounded; assumption).
+  reflexivity.
 Qed.
 
 (* ---------------------------------------------------------------- fac *)
@@ -556,12 +581,17 @@ Theorem fac_complete nh s t pp qq alpha beta mu nu sigma r x y e P Q A B T z1 z2
   fac_commit nh s t pp qq alpha beta mu nu r x y = (P, Q, A, B, T) ->
   fac_respond pp qq alpha beta mu nu sigma r x y e = (z1, z2, w1, w2, v) ->
   in_leps1rootn z1 = true -> in_leps1rootn z2 = true ->
+  zk_bounded sigma = true -> zk_bounded w1 = true -> zk_bounded w2 = true -> zk_bounded v = true ->
   fac_verify (pp * qq) nh s t P Q A B T sigma z1 z2 w1 w2 v e = Some true.
 Proof.
-  intros Hnh Hs Ht Hpq Hcom Hresp H1 H2.
+  intros Hnh Hs Ht Hpq Hcom Hresp H1 H2 Hbs Hbw1 Hbw2 Hbv.
   unfold fac_commit in Hcom. cbv zeta in Hcom. injection Hcom as <- <- <- <- <-.
   unfold fac_respond in Hresp. injection Hresp as <- <- <- <- <-.
-  unfold fac_verify. rewrite !ped_complete by assumption. cbn [guard]. cbv zeta.
+  pose proof (in_leps1rootn_bounded _ H1) as Hbz1. pose proof (in_leps1rootn_bounded _ H2) as Hbz2.
+  unfold fac_verify. rewrite !valid_ped_commit by assumption.
+  rewrite (valid_mod_unit_mod nh) by (try lia; apply unit_mul; apply unit_expI; try assumption; apply unit_ped_commit; assumption).
+  rewrite Hbs, Hbz1, Hbz2, Hbw1, Hbw2, Hbv.
+  rewrite !ped_complete by assumption. cbn [andb guard]. cbv zeta.
   rewrite fac_relation by assumption. rewrite Z.eqb_refl, H1, H2. reflexivity.
 Qed.
 
@@ -618,7 +648,13 @@ Proof.
       unfold s. rewrite !powmod_spec by lia. rewrite Z.pow_add_r by lia.
       rewrite <- Z.mul_mod by lia. reflexivity.
     - reflexivity. }
-  rewrite Hr. reflexivity.
+  assert (Hiv : forallb (valid_big n) (prm_commit n t al ++ prm_respond phi lambda al es) = true).
+  { rewrite forallb_app. apply andb_true_iff. split.
+    - unfold prm_commit. clear - Hn Ht Hpos. induction al as [|a al IH]; [reflexivity|]. cbn [map forallb].
+      inversion Hpos as [|? ? Ha Hpos']; subst. rewrite IH by assumption. rewrite andb_true_r.
+      rewrite powmod_spec by lia. apply valid_big_unit_mod; [lia | apply unit_pow; assumption].
+    - apply forallb_forall. rewrite Forall_forall in Hzs. exact Hzs. }
+  rewrite Hiv, Hr. reflexivity.
 Qed.
 
 Section Systems.
@@ -723,15 +759,16 @@ Section Systems.
     logstar_commit smul q nh s t n0 Gb x alpha r mu gamma = Some (S, A, Y, D) ->
     enc_respond n0 x rho alpha r mu gamma e = (z1, z2, z3) ->
     gis_id Y = false ->
-    in_leps z1 = true ->
+    in_leps z1 = true -> zk_bounded z3 = true ->
     logstar_verify gadd smul geqb gis_id q nh s t n0 C (act x Gb) Gb S A Y D z1 z2 z3 e = Some true.
   Proof.
-    intros Hnh Hs Ht Hn0 Hbig Hrho Hr HC Hcom Hresp HY Hrange.
+    intros Hnh Hs Ht Hn0 Hbig Hrho Hr HC Hcom Hresp HY Hrange Hb3.
     apply enc_Some_inv in HC as [-> _].
     unfold logstar_commit in Hcom. destruct (enc n0 alpha r) as [A'|] eqn:EA; [|discriminate].
     apply enc_Some_inv in EA as [-> _]. injection Hcom as <- <- <- <-.
     unfold enc_respond in Hresp. injection Hresp as <- <- <-.
-    unfold logstar_verify. rewrite validate_encval, HY, valid_resp_nonce, Hrange, ped_complete by assumption. cbn [negb guard].
+    unfold logstar_verify. rewrite !valid_ped_commit, validate_encval, HY, valid_resp_nonce, Hrange by assumption.
+    rewrite ped_complete by (try assumption; apply in_leps_bounded; assumption). cbn [andb negb guard].
     rewrite enc_eq_ok.
     - rewrite resp_eq, geqb_refl. reflexivity.
     - apply (half_bound 768); [lia | exact Hbig | apply in_leps_iff; exact Hrange].
@@ -745,25 +782,26 @@ Section Systems.
     rewrite !Z.mod_mod by lia. rewrite <- Z.mul_mod by lia. rewrite <- Z.add_mod by lia. reflexivity.
   Qed.
 
-  (* no l+eps range check: the only bound is EncWithNonce's |z1| <= N/2 *)
+  (* no l+eps range check: the bounds are the plaintext range |z1| <= N/2 and the size bound of pedersen.Verify *)
   Theorem dec_complete nh s t n0 y rho alpha mu nu r e C S T A Gamma z1 z2 w :
     1 < nh -> unit nh s -> unit nh t -> 1 < n0 -> unit n0 rho -> unit n0 r ->
     enc n0 y rho = Some C ->
     dec_commit q nh s t n0 y alpha mu nu r = Some (S, T, A, Gamma) ->
     dec_respond n0 y rho alpha mu nu r e = (z1, z2, w) ->
     sc_zero q Gamma = false ->
-    Z.abs z1 <= n0 / 2 ->
+    in_plaintext n0 z1 = true -> zk_bounded z1 = true -> zk_bounded z2 = true ->
     dec_verify q nh s t n0 C (y mod q) S T A Gamma z1 z2 w e = Some true.
   Proof.
-    intros Hnh Hs Ht Hn0 Hrho Hr HC Hcom Hresp HG Hz1.
+    intros Hnh Hs Ht Hn0 Hrho Hr HC Hcom Hresp HG Hz1 Hb1 Hb2.
     apply enc_Some_inv in HC as [-> _].
     unfold dec_commit in Hcom. destruct (enc n0 alpha r) as [A'|] eqn:EA; [|discriminate].
     apply enc_Some_inv in EA as [-> _]. injection Hcom as <- <- <- <-.
     unfold dec_respond in Hresp. injection Hresp as <- <- <-.
-    unfold dec_verify. rewrite HG, validate_encval, valid_resp_nonce, ped_complete by assumption. cbn [negb guard].
+    unfold dec_verify. rewrite HG, !valid_ped_commit, validate_encval, valid_resp_nonce, Hz1, ped_complete by assumption.
+    cbn [andb negb guard].
     rewrite enc_eq_ok.
     - rewrite <- dec_scalar_eq, Z.eqb_refl. reflexivity.
-    - exact Hz1.
+    - apply in_plaintext_iff. exact Hz1.
     - apply enc_linear; assumption.
   Qed.
 
@@ -776,11 +814,11 @@ Section Systems.
     enc n0 y sn = Some Dv -> enc n1 y r = Some Fp ->
     affg_commit smul gbase q nh s t n1 n0 Kv x y alpha beta rho rhoy gamma m delta mu = Some (A, Bx, By, E, S, F, T) ->
     affg_respond n1 n0 x y sn r alpha beta rho rhoy gamma m delta mu e = (z1, z2, z3, z4, w, wy) ->
-    gis_id Bx = false -> in_leps z1 = true -> in_lprimeeps z2 = true ->
+    gis_id Bx = false -> in_leps z1 = true -> in_lprimeeps z2 = true -> zk_bounded z3 = true -> zk_bounded z4 = true ->
     affg_verify gadd smul geqb gis_id gbase q nh s t n1 n0 Kv (add n0 (mul n0 x Kv) Dv) Fp (act x gbase)
                 A Bx By E S F T z1 z2 z3 z4 w wy e = Some true.
   Proof.
-    intros Hnh Hs Ht Hn0 Hb0 Hn1 Hb1 HK Hsn Hrho Hr Hrhoy HD HF Hcom Hresp HBx Hr1 Hr2.
+    intros Hnh Hs Ht Hn0 Hb0 Hn1 Hb1 HK Hsn Hrho Hr Hrhoy HD HF Hcom Hresp HBx Hr1 Hr2 Hbz3 Hbz4.
     apply enc_Some_inv in HD as [-> _]. apply enc_Some_inv in HF as [-> _].
     unfold affg_commit in Hcom.
     destruct (enc n0 beta rho) as [c|] eqn:E0; [|discriminate].
@@ -792,11 +830,12 @@ Section Systems.
       by (apply (half_bound 1792); [lia | exact Hb0 | apply in_lprimeeps_iff; exact Hr2]).
     assert (Hz2' : Z.abs (e * y + beta) <= n1 / 2)
       by (apply (half_bound 1792); [lia | exact Hb1 | apply in_lprimeeps_iff; exact Hr2]).
-    unfold affg_verify.
+    unfold affg_verify. rewrite !valid_ped_commit by assumption.
     rewrite validate_add by (try apply unit_encval; try apply unit_mul_ct; assumption).
     rewrite validate_encval by assumption.
-    rewrite !valid_resp_nonce by assumption. rewrite HBx, Hr1, Hr2. rewrite !ped_complete by assumption.
-    cbn [negb guard]. rewrite enc_encval by exact Hz2.
+    rewrite !valid_resp_nonce by assumption. rewrite HBx, Hr1, Hr2.
+    rewrite !ped_complete by (try assumption; try (apply in_leps_bounded; assumption); apply in_lprimeeps_bounded; assumption).
+    cbn [andb negb guard]. rewrite enc_encval by exact Hz2.
     rewrite aff_linear by assumption. rewrite Z.eqb_refl. cbn [guard].
     rewrite resp_eq, geqb_refl. cbn [guard].
     apply enc_eq_ok; [exact Hz2' | apply enc_linear; assumption].
@@ -809,15 +848,15 @@ Section Systems.
     D = randomize n0 (mul n0 x C) rho ->
     mulstar_commit smul gbase q nh s t n0 C x alpha r gamma m = (A, Bx, E, S) ->
     mulstar_respond n0 x rho alpha r gamma m e = (z1, z2, w) ->
-    gis_id Bx = false -> in_leps z1 = true ->
+    gis_id Bx = false -> in_leps z1 = true -> zk_bounded z2 = true ->
     mulstar_verify gadd smul geqb gis_id gbase q nh s t n0 C D (act x gbase) A Bx E S z1 z2 w e = Some true.
   Proof.
-    intros Hnh Hs Ht Hn0 HC Hrho Hr -> Hcom Hresp HBx Hr1.
+    intros Hnh Hs Ht Hn0 HC Hrho Hr -> Hcom Hresp HBx Hr1 Hbz2.
     unfold mulstar_commit in Hcom. injection Hcom as <- <- <- <-.
     unfold mulstar_respond in Hresp. injection Hresp as <- <- <-.
-    unfold mulstar_verify. rewrite valid_resp_nonce by assumption.
+    unfold mulstar_verify. rewrite !valid_ped_commit, valid_resp_nonce by assumption.
     rewrite validate_randomize by (try apply unit_mul_ct; assumption).
-    rewrite HBx, Hr1, ped_complete by assumption. cbn [negb guard].
+    rewrite HBx, Hr1. rewrite ped_complete by (try assumption; apply in_leps_bounded; assumption). cbn [andb negb guard].
     rewrite rand_linear by assumption. rewrite Z.eqb_refl. cbn [guard].
     rewrite resp_eq, geqb_refl. reflexivity.
   Qed.
@@ -829,16 +868,17 @@ Section Systems.
     let A := act a gbase in
     encelg_commit gadd smul gbase q nh s t n0 A x alpha mu r beta gamma = Some (S, D, Y, Zp, T) ->
     encelg_respond q n0 x rho b alpha mu r beta gamma e = (z1, w, z2, z3) ->
-    sc_zero q w = false -> gis_id Y = false -> gis_id Zp = false -> in_leps z1 = true ->
+    sc_zero q w = false -> gis_id Y = false -> gis_id Zp = false -> in_leps z1 = true -> zk_bounded z3 = true ->
     encelg_verify gadd smul geqb gis_id gbase q nh s t n0 C A (act b gbase) (act (a * b + x) gbase)
                   S D Y Zp T z1 w z2 z3 e = Some true.
   Proof.
-    intros Hnh Hs Ht Hn0 Hbig Hrho Hr HC A Hcom Hresp Hw HY HZ Hr1.
+    intros Hnh Hs Ht Hn0 Hbig Hrho Hr HC A Hcom Hresp Hw HY HZ Hr1 Hbz3.
     apply enc_Some_inv in HC as [-> _].
     unfold encelg_commit in Hcom. destruct (enc n0 alpha r) as [D'|] eqn:ED; [|discriminate].
     apply enc_Some_inv in ED as [-> _]. injection Hcom as <- <- <- <- <-.
     unfold encelg_respond in Hresp. injection Hresp as <- <- <- <-.
-    unfold encelg_verify. rewrite validate_encval, Hw, HY, HZ, valid_resp_nonce, Hr1 by assumption. cbn [orb negb guard].
+    unfold encelg_verify. rewrite !valid_ped_commit, validate_encval, Hw, HY, HZ, valid_resp_nonce, Hr1 by assumption.
+    cbn [andb orb negb guard].
     rewrite enc_eq_ok;
       [| apply (half_bound 768); [lia | exact Hbig | apply in_leps_iff; exact Hr1] | apply enc_linear; assumption].
     assert (Ew : forall P, act (((e mod q) * (b mod q)) mod q + beta mod q) P = smul (e * b + beta) P).
@@ -852,7 +892,8 @@ Section Systems.
     - rewrite geqb_refl. cbn [guard].
       replace (smul (e * b + beta) gbase) with (act e (act b gbase) +' act beta gbase)
         by (rewrite !act_smul, smul_add, smul_smul; reflexivity).
-      rewrite geqb_refl. cbn [guard]. rewrite ped_complete by assumption. reflexivity.
+      rewrite geqb_refl. cbn [guard].
+      rewrite ped_complete by (try assumption; apply in_leps_bounded; assumption). reflexivity.
     - unfold A. rewrite !act_smul. rewrite !smul_smul, <- !smul_add. apply smul_cong. f_equal. ring.
   Qed.
 
@@ -988,27 +1029,62 @@ Section RangeEnforced.
     - rewrite (in_leps1rootn_false z2 H). rewrite andb_false_r. guards.
   Qed.
 
-  (* zkdec, zkmul: the only bound on the response is the guard of EncWithNonce; beyond it the verifier does not
-     accept (it rejects at an earlier check or PANICS); up to N/2 there is no check at all (see dec_complete) *)
-  Theorem dec_range_partial nh s t n0 C X S T A Gamma z1 z2 w e :
-    n0 / 2 < Z.abs z1 -> dec_verify q nh s t n0 C X S T A Gamma z1 z2 w e <> Some true.
+  (* zkdec, zkmul: the response must be a plaintext EncWithNonce accepts, |z| <= N/2 (there is no l+eps check);
+     beyond that bound the verifier REJECTS, and it can never panic *)
+  Lemma in_plaintext_false n z : n / 2 < Z.abs z -> in_plaintext n z = false.
+  Proof. intro H. unfold in_plaintext. apply Z.leb_gt. exact H. Qed.
+
+  Lemma enc_eq_no_panic n m rho rhs k : in_plaintext n m = true -> k <> None -> enc_eq n m rho rhs k <> None.
   Proof.
-    intro H. unfold dec_verify. rewrite (enc_eq_refuses n0 z1 w _ _ H). unfold guard.
-    repeat match goal with |- (if ?b then _ else _) <> _ => destruct b end; discriminate.
-  Qed.
-  Theorem dec_oversized_panics nh s t n0 C X S T A Gamma z1 z2 w e :
-    n0 / 2 < Z.abs z1 ->
-    sc_zero q Gamma = false -> validate_ct n0 A = true -> valid_mod n0 w = true -> ped_verify nh s t z1 z2 e T S = true ->
-    dec_verify q nh s t n0 C X S T A Gamma z1 z2 w e = None.
-  Proof.
-    intros H H1 H2 H3 H4. unfold dec_verify. rewrite H1, H2, H3, H4. cbn [negb guard]. apply enc_eq_refuses. exact H.
+    intros Hm Hk. unfold enc_eq. rewrite enc_encval by (apply in_plaintext_iff; exact Hm).
+    unfold guard. destruct (encval n m rho =? rhs); [exact Hk | discriminate].
   Qed.
 
-  Theorem mul_range_partial n X Y C A B z u v e :
-    n / 2 < Z.abs z -> mul_verify n X Y C A B z u v e <> Some true.
+  Theorem dec_range_enforced nh s t n0 C X S T A Gamma z1 z2 w e :
+    n0 / 2 < Z.abs z1 -> dec_verify q nh s t n0 C X S T A Gamma z1 z2 w e = Some false.
+  Proof. intro H. unfold dec_verify. rewrite (in_plaintext_false n0 z1 H). guards. Qed.
+
+  Theorem dec_never_panics nh s t n0 C X S T A Gamma z1 z2 w e :
+    dec_verify q nh s t n0 C X S T A Gamma z1 z2 w e <> None.
   Proof.
-    intro H. unfold mul_verify. rewrite (enc_eq_refuses n z v _ _ H). unfold guard.
-    repeat match goal with |- (if ?b then _ else _) <> _ => destruct b end; discriminate.
+    unfold dec_verify.
+    destruct (negb (sc_zero q Gamma)); [|discriminate]. destruct (valid_mod nh S && valid_mod nh T); [|discriminate].
+    destruct (validate_ct n0 A); [|discriminate]. destruct (valid_mod n0 w); [|discriminate].
+    destruct (in_plaintext n0 z1) eqn:Hp; [|discriminate]. destruct (ped_verify nh s t z1 z2 e T S); [|discriminate].
+    cbn [guard]. apply enc_eq_no_panic; [exact Hp|]. unfold guard. destruct (_ =? _); discriminate.
+  Qed.
+
+  Theorem mul_range_enforced n X Y C A B z u v e :
+    n / 2 < Z.abs z -> mul_verify n X Y C A B z u v e = Some false.
+  Proof. intro H. unfold mul_verify. rewrite (in_plaintext_false n z H). guards. Qed.
+
+  Theorem mul_never_panics n X Y C A B z u v e : mul_verify n X Y C A B z u v e <> None.
+  Proof.
+    unfold mul_verify.
+    destruct (valid_mod n u && valid_mod n v); [|discriminate]. destruct (validate_ct n A && validate_ct n B); [|discriminate].
+    destruct (in_plaintext n z) eqn:Hp; [|discriminate]. cbn [guard].
+    destruct (randomize n (mul n z Y) u =? add n (mul n e C) A); [|discriminate]. cbn [guard].
+    apply enc_eq_no_panic; [exact Hp | discriminate].
+  Qed.
+
+  (* oversized integers are refused before they are used as exponents (pedersen.Verify, zkfac) *)
+  Theorem ped_oversized_refused n s t a b e S T :
+    2 ^ 4865 <= Z.abs a \/ 2 ^ 4865 <= Z.abs b -> ped_verify n s t a b e S T = false.
+  Proof.
+    intro H. unfold ped_verify.
+    destruct (zk_bounded a) eqn:Ea; [|reflexivity]. destruct (zk_bounded b) eqn:Eb; [|reflexivity].
+    apply zk_bounded_iff in Ea, Eb. lia.
+  Qed.
+  Theorem fac_oversized_refused n0 nh s t P Q A B T sigma z1 z2 w1 w2 v e :
+    2 ^ 4865 <= Z.abs sigma \/ 2 ^ 4865 <= Z.abs w1 \/ 2 ^ 4865 <= Z.abs w2 \/ 2 ^ 4865 <= Z.abs v ->
+    fac_verify n0 nh s t P Q A B T sigma z1 z2 w1 w2 v e = Some false.
+  Proof.
+    intro H. unfold fac_verify.
+    assert (E : zk_bounded sigma && zk_bounded z1 && zk_bounded z2 && zk_bounded w1 && zk_bounded w2 && zk_bounded v = false).
+    { destruct (zk_bounded sigma) eqn:E1, (zk_bounded w1) eqn:E2, (zk_bounded w2) eqn:E3, (zk_bounded v) eqn:E4;
+        rewrite ?andb_false_r, ?andb_false_l; try reflexivity.
+      apply zk_bounded_iff in E1, E2, E3, E4. lia. }
+    rewrite E. guards.
   Qed.
 
   (* zknth, zkprm: the responses are residues; anything outside [1, N) is refused *)
@@ -1486,14 +1562,18 @@ Proof. destruct b; cbn [guard]; [auto | discriminate]. Qed.
    from any accepted proof, (Sigma + d, V + d e) is accepted as well, for every d *)
 Theorem fac_sigma_not_bound n0 nh s t P Q A B T sigma z1 z2 w1 w2 v e d :
   1 < nh -> unit nh s -> unit nh t -> 0 <= n0 ->
+  zk_bounded (sigma + d) = true -> zk_bounded (v + d * e) = true ->
   fac_verify n0 nh s t P Q A B T sigma z1 z2 w1 w2 v e = Some true ->
   fac_verify n0 nh s t P Q A B T (sigma + d) z1 z2 w1 w2 (v + d * e) e = Some true.
 Proof.
-  intros Hnh Hs Ht Hn0 H. assert (nz : nh <> 0) by lia.
+  intros Hnh Hs Ht Hn0 Hbs Hbv H. assert (nz : nh <> 0) by lia.
   unfold fac_verify in *. cbv zeta in *.
+  apply guard_true_inv in H as [Hv H]. apply guard_true_inv in H as [Hb H].
   apply guard_true_inv in H as [H1 H]. apply guard_true_inv in H as [H2 H].
   apply guard_true_inv in H as [H3 H]. apply guard_true_inv in H as [H4 _].
-  rewrite H1, H2, H4. cbn [guard]. apply Z.eqb_eq in H3.
+  repeat (apply andb_true_iff in Hb as [Hb ?]).
+  rewrite Hv, Hbs, Hbv. repeat match goal with E : zk_bounded _ = true |- _ => rewrite E; clear E end.
+  rewrite H1, H2, H4. cbn [andb guard]. apply Z.eqb_eq in H3.
   assert (Hsn : unit nh (powmod nh s n0)) by (apply unit_powmod; [lia | assumption]).
   rewrite expI_mulmod_base in H3 by (try apply unit_expI; assumption).
   rewrite expI_expI in H3 by assumption.
@@ -1718,18 +1798,18 @@ Proof. intros. cbn [fac_respond]. split; apply fac_slack; assumption. Qed.
 (* zkdec / zkmul: the proviso is EncWithNonce's guard *)
 Lemma dec_range_slack n0 y rho alpha mu nu r e :
   Z.abs e < 2 ^ 256 -> Z.abs y <= 2 ^ 256 -> Z.abs alpha <= n0 / 2 - 2 ^ 512 ->
-  Z.abs (fst (fst (dec_respond n0 y rho alpha mu nu r e))) <= n0 / 2.
+  in_plaintext n0 (fst (fst (dec_respond n0 y rho alpha mu nu r e))) = true.
 Proof.
-  intros He Hy Ha. cbn [dec_respond fst].
+  intros He Hy Ha. apply in_plaintext_iff. cbn [dec_respond fst].
   assert (Z.abs (e * y) < 2 ^ 512).
   { rewrite Z.abs_mul. change (2 ^ 512) with (2 ^ 256 * 2 ^ 256). pose proof (Z.abs_nonneg e). pose proof (Z.abs_nonneg y). nia. }
   pose proof (Z.abs_triangle (e * y) alpha). lia.
 Qed.
 Lemma mul_range_slack n x rho rhox alpha r s e :
   Z.abs e < 2 ^ 256 -> Z.abs x <= 2 ^ 256 -> Z.abs alpha <= n / 2 - 2 ^ 512 ->
-  Z.abs (fst (fst (mul_respond n x rho rhox alpha r s e))) <= n / 2.
+  in_plaintext n (fst (fst (mul_respond n x rho rhox alpha r s e))) = true.
 Proof.
-  intros He Hx Ha. cbn [mul_respond fst].
+  intros He Hx Ha. apply in_plaintext_iff. cbn [mul_respond fst].
   assert (Z.abs (e * x) < 2 ^ 512).
   { rewrite Z.abs_mul. change (2 ^ 512) with (2 ^ 256 * 2 ^ 256). pose proof (Z.abs_nonneg e). pose proof (Z.abs_nonneg x). nia. }
   pose proof (Z.abs_triangle (e * x) alpha). lia.
